@@ -22,7 +22,7 @@ COMPARE = ["{} < {}", "{} is not {}", "{} not in {}", "{} == {} != {}"]
 OTHER1 = ["({} if c else e)", "(b if {} else e)", "(b if c else {})", "lambda: {}", "lambda x, /, y=1, *a, z, **k: {}", "f({})", "f(*{})", "f(**{})", "f(k={})",
           "{}.attr", "{}[i]", "x[{}]", "x[{}:]", "x[i:{}:2]", "x[{}, y]", "[{}]", "({},)", "({}, y)", "{{{}}}", "{{{}: v}}", "{{k: {}}}", "{{**{}}}",
           "[{} for i in y]", "[i for i in {}]", "[i for i in y if {}]", "{{k: {} for k in y}}", "{{{} for i in y}}", "({} for i in y)", "f({} for i in y)",
-          "(n := {})", "f'{{{}}}'", "f'{{{}!r:>10}}'", "{}(x)", "*{},", "[i async for i in {}]", "(yield {})", "(yield from {})", "(yield)", "x[({}, y) + z]", "x[()]",
+          "(n := {})", "f'{{{}}}'", "f'{{{}!r:>10}}'", "f'{{ {} }}'", "f'a{{ {}[1] }}b'", "{}(x)", "*{},", "[i async for i in {}]", "(yield {})", "(yield from {})", "(yield)", "x[({}, y) + z]", "x[()]",
           "(lambda: {})()", "({} for i in y if c if d)", "[j for i in {} for j in i]"]
 TEMPLATES2 = BINARY + BOOL + COMPARE[:3]
 
